@@ -18,7 +18,8 @@ import props
 import pyxlib as P
 
 IDENTS = ["a", "b1", "foo", "Bar", "_x", "x_y", "T0", "Value", "self_", "typ", "r#type", "r#fn", "Éclair"]
-TYPE_NAMES = ["u8", "u32", "i64", "f32", "bool", "void", "Foo", "Bar", "Shared<Foo>", "Map<K>", "T0"]
+TYPE_NAMES = ["u8", "u32", "i64", "f32", "bool", "void", "Foo", "Bar", "Shared<Foo>", "Map<K>", "T0",
+              "Vec<Shared<Foo>>", "A<B<C<D>>>"]
 ATTR_NAMES = ["size", "align", "address", "index", "singleton", "copyable", "packed", "base", "custom", "doc2"]
 
 
@@ -78,7 +79,7 @@ def g_module(rng):
     m = ["module", g_attrs(rng, maxn=2)]
     m.append(["uses"] + [["path"] + [sx.Q(rng.choice(["a", "b", "core", "Foo", "Map<K>"])) for _ in range(rng.randint(1, 3))]
                          for _ in range(rng.randint(0, 2))])
-    m.append(["extern_types"] + [["etype", sx.Q(rng.choice(["Ext", "Shared<Foo>", "X1"])), g_attrs(rng)] for _ in range(rng.randint(0, 2))])
+    m.append(["extern_types"] + [["etype", sx.Q(rng.choice(["Ext", "Shared<Foo>", "X1", "Vec<Shared<Foo>>"])), g_attrs(rng)] for _ in range(rng.randint(0, 2))])
     m.append(["extern_values"] + [["evalue", g_attrs(rng), rng.choice(["pub", "priv"]), sx.Q("g%d" % i), g_type(rng, 3)]
                                   for i in range(rng.randint(0, 2))])
     defs = ["defs"]
